@@ -194,7 +194,38 @@ def c_chi2_product(ctx, args):
     return None
 
 
-CHECKS = {'chi2_product': c_chi2_product, 'pair': c_pair, 'clifford': c_clifford, 'maps_states': c_maps_states, 'resample': c_resample, 'chi2': c_chi2}
+def c_chi2_rows(ctx, args):
+    """support only: for N = 3 every row of the sampled table (image of X_j / Z_j) is uniform over the 63 non-identity strings -- the inner recursion levels included
+    (rows 2..5 are produced below the top level); df 62 each, threshold at 1e-6; plus: no string may stay unreached"""
+    be, nsamp, seed = args
+    if be == 'np':
+        NP.seed_numba(seed)
+        draw = lambda: [tuple(int(v) for v in r) for r in U.random_clifford(3)]
+    else:
+        import torch, torchclifford as tc
+        torch.manual_seed(seed)
+        draw = lambda: [tuple(int(round(float(v))) for v in r) for r in tc.utils.random_clifford(3)]
+    cnt = [dict() for _ in range(6)]
+    for _ in range(nsamp):
+        rows = draw()
+        for j in range(6):
+            cnt[j][rows[j]] = cnt[j].get(rows[j], 0) + 1
+    e = nsamp / 63.0
+    res = {}
+    for j in range(6):
+        chi = sum((c - e) ** 2 / e for c in cnt[j].values()) + (63 - len(cnt[j])) * e
+        res['row%d' % j] = {'chi2': chi, 'limit': 129.95, 'seen': len(cnt[j]), 'of': 63}
+    ctx.res.notes['chi2_rows_' + be] = res
+    for k, v in res.items():
+        if v['seen'] > 63 or (tuple([0] * 6) in cnt[int(k[3:])]):
+            return {'kind': 'oracle', 'where': '%s:random_clifford(3) %s takes a value outside the non-identity strings' % (be, k), 'observed': v['seen'], 'expected': 63}
+        if v['chi2'] > v['limit'] or v['seen'] < 63:
+            return {'kind': 'oracle', 'where': '%s:random_clifford(3): %s is not uniform over the 63 non-identity strings' % (be, k), 'observed': [v['chi2'], v['seen']], 'expected': '< 129.95, all 63 reached',
+                    'tags': ['statistical', be]}
+    return None
+
+
+CHECKS = {'chi2_rows': c_chi2_rows, 'chi2_product': c_chi2_product, 'pair': c_pair, 'clifford': c_clifford, 'maps_states': c_maps_states, 'resample': c_resample, 'chi2': c_chi2}
 
 
 def run(ctx):
@@ -218,3 +249,5 @@ def run(ctx):
     do(ctx, 'chi2', [2, 14400 if ctx.tier == 'quick' else 144000, 12], nontrivial='chi2')
     do(ctx, 'chi2_product', ['torch', 14400 if ctx.tier == 'quick' else 144000, 13], nontrivial='chi_prod_torch')
     do(ctx, 'chi2_product', ['np', 3600 if ctx.tier == 'quick' else 72000, 14], nontrivial='chi_prod_np')
+    do(ctx, 'chi2_rows', ['np', 20000 if ctx.tier == 'quick' else 400000, 16], nontrivial='chi_rows_np')
+    do(ctx, 'chi2_rows', ['torch', 8000 if ctx.tier == 'quick' else 80000, 17], nontrivial='chi_rows_torch')
